@@ -55,7 +55,7 @@ import (
 	"google.golang.org/protobuf/reflect/protoreflect"
 )
 
-const specExemption = "exempt iff entry point is context-aware (VerifyRequestSignaturesWithContext / VerifyRequestSignaturesN3) " +
+const specExemption = "the exemption applies ONLY to requests with no verification header at all; exempt iff entry point is context-aware (VerifyRequestSignaturesWithContext / VerifyRequestSignaturesN3) " +
 	"and the request has NO verification header and its meta header has TTL == 1 and the gRPC peer carries peerauth.AuthInfo " +
 	"(TLS handshake presented a certificate with a P-256 key); CHANGELOG: 'SNs no longer sign TTL=1 requests over mutually authenticated inter-node connections (#4100)'"
 
@@ -886,10 +886,13 @@ func model(b *built, req *protoobject.GetRequest, extra map[provKey][]byte, e en
 	}
 	res.chainOK = chainOK
 	switch {
-	case !chainOK && oneHopTrusted:
-		res.verdict, res.why = either, "one-hop authenticated peer with an invalid header (property permits both)"
 	case !chainOK:
+		// the exemption applies ONLY to requests with no verification header at all: a request that carries a header
+		// is judged by its signatures whatever the TTL and the peer are
 		res.verdict, res.why = mustReject, "invalid-"+res.badSlot
+		if oneHopTrusted {
+			res.why += "(one-hop-authenticated-peer-but-header-present)"
+		}
 	case m.legit() && !countMismatch && !extraBody:
 		res.verdict, res.why = mustAccept, "valid chain"
 	default:
@@ -1082,6 +1085,14 @@ func (w *world) check(b *built, m mutation, envs []env) {
 				cls = b.diffClass(mreq)
 			}
 			fp := fmt.Sprintf("accepted-unauthentic:first-invalid-slot-scheme=%s:mutated=%s", schemeName(mr.badSch), leafOf(cls))
+			if strings.Contains(mr.why, "header-present") {
+				if _, pan2 := runImpl(req, env{e.Entry, 2}); pan2 == nil {
+					if err2, _ := runImpl(req, env{e.Entry, 2}); err2 != nil {
+						// rejected from a non-authenticated peer, accepted from the authenticated one: the exemption leaked
+						fp = "exemption-applied-to-a-request-carrying-a-verification-header:mutated=" + leafOf(cls)
+					}
+				}
+			}
 			if m.Resign > 0 {
 				fp += ":outer-layers-resigned-by-forwarder"
 			}
@@ -1343,7 +1354,12 @@ func main() {
 			}
 		}
 		return func(m mutation) []env {
-			if m.Kind == "flip" || m.Kind == "wire-bit" {
+			switch {
+			case m.Kind == "flip" && m.Bit == 0 && (m.Byte == 0 || r.Thorough()), m.Kind == "wire-bit" && m.Val%64 == 0:
+				// one flip per leaf (thorough: per byte) and one per 8 wire bytes go through EVERY entry point x peer context, so that
+				// header-carrying tampered requests meet the authenticated-peer context at both TTLs
+				return every
+			case m.Kind == "flip" || m.Kind == "wire-bit":
 				return bitEnvs
 			}
 			return every
@@ -1435,7 +1451,8 @@ func main() {
 	r.Set("pristine_configurations", len(cfgs))
 	r.Set("mutations_enumerated", total)
 	r.Set("exemption_spec", specExemption)
-	r.Rule("every pristine configuration (layers 1..3 x API regime x scheme assignment x TTL) x every enumerated mutation (each bit of each populated leaf, " +
+	r.Rule("every mutation class (one flip per leaf of body, meta and every signature (thorough: per byte), one per 8 wire bytes, every dropped/emptied/re-signed slot, layer drop, permutation, swap, substitution, re-signing) x EVERY entry point x EVERY peer context x outer TTL 1 and 2; the remaining 7 bits of every byte under one decided environment per configuration (quick) / five (thorough); " +
+		"every pristine configuration (layers 1..3 x API regime x scheme assignment x TTL) x every enumerated mutation (each bit of each populated leaf, " +
 		"each unset field set, slot drop/empty/re-sign, scheme/key/sign menus, all slot pair swaps, layer drops, all layer permutations, attacker re-signing, " +
 		"each bit of the wire form) x entry point/peer context; non-trivial = a non-identity mutation whose reference verdict is decided (must reject / must accept), distinct by (configuration, mutation, environment)")
 	r.Assume("signature unforgeability: a (scheme,key,sign) triple never produced by a harness signer over exactly the covered bytes is invalid (a mutated triple verifying by chance has negligible probability)",
